@@ -458,7 +458,8 @@ fn eval_create(ty: Ty, ver: Ver, s: &Spec, acc: &mut Acc) {
         }
         Ok(Err(e)) => {
             // clean rejection: nothing must be readable afterwards
-            let label = format!("rejected:{}:{}", vds::err_class(&e), shape_class(&model));
+            let msg: String = e.to_string().chars().filter(|c| !c.is_ascii_digit()).take(90).collect();
+            let label = format!("rejected:{}:{}: {msg}", vds::err_class(&e), shape_class(&model));
             acc.matrix.entry(mkey).or_default().insert(label);
             acc.cov.outcome("rejected");
             let again = vds::run_catch(async { env.open(URI).await.map(|d| d.version().version) });
@@ -793,20 +794,27 @@ pub fn run(ctx: &Ctx) -> Outcome {
     let tys: Vec<Ty> = Ty::all().into_iter().filter(|t| only_ty.as_ref().map(|o| *o == t.name()).unwrap_or(true)).collect();
 
     // ---- part A
+    // work items ordered (file size, group size, version) major / type minor, so that a wall cap cuts the
+    // tail of the knob product for all types alike instead of dropping whole types
     let mut items = vec![];
-    for ty in &tys {
-        for ver in Ver::all() {
-            for f in [1usize, 2, 1000] {
+    for f in [1usize, 2, 1000] {
+        for g in [1024usize, 1] {
+            for ver in Ver::all() {
                 // max_rows_per_group only reaches the legacy writer (v2 ignores it: do_write_fragments);
-                // one deviating value is still run on v2 to observe exactly that
-                let gs: Vec<usize> = if (ver == Ver::Legacy && (f > 1 || !quick)) || (f == 2 && !quick) { vec![1, 1024] } else { vec![1024] };
-                for g in gs {
+                // one deviating value is still run on v2 in the thorough tier to observe exactly that
+                let g_used = g == 1024 || (ver == Ver::Legacy && (f > 1 || !quick)) || (f == 2 && !quick);
+                if !g_used {
+                    continue;
+                }
+                for ty in &tys {
                     items.push((*ty, ver, f, g));
                 }
             }
         }
     }
-    let wall_a = ctx.tier.pick(27.0, 420.0);
+    let rot = (ctx.seed as usize) % items.len().max(1);
+    items.rotate_left(rot);
+    let wall_a = ctx.opts.get("wall_a").and_then(|v| v.parse::<f64>().ok()).unwrap_or(ctx.tier.pick(27.0, 420.0));
     let start = std::time::Instant::now();
     let results = vcore::par_map(items, ctx.workers, |_, (ty, ver, f, g)| {
         let mut acc = Acc::default();
@@ -837,7 +845,7 @@ pub fn run(ctx: &Ctx) -> Outcome {
     let mut rep = seqx::Report::default();
     let profiles: Vec<(&str, Vec<Ty>, bool, usize, f64)> = if quick {
         vec![
-            ("all-types", tys.clone(), false, 2, 7.0),
+            ("all-types", tys.clone(), false, 2, 8.0),
             ("reduced", Ty::reduced().into_iter().filter(|t| tys.contains(t)).collect(), false, 3, 8.0),
         ]
     } else {
